@@ -1,4 +1,5 @@
 import OutlineModel.Drive.Replay
+import OutlineModel.Drive.IP
 /- Model driver: one op per line on stdin, one result per line on stdout.
    First word selects the engine.  Core only (no Mathlib) so it links as a lean_exe. -/
 open OutlineModel
@@ -9,6 +10,7 @@ structure St where
 def stepLine (st : St) (line : String) : St × String :=
   match (line.trimAscii.toString.splitOn " ").filter (· ≠ "") with
   | "replay" :: args => let (s, o) := Drive.Replay.step st.replay args; ({ st with replay := s }, o)
+  | "ip" :: args => (st, Drive.IP.step args)
   | _ => (st, "bad-engine")
 
 partial def loop (h : IO.FS.Stream) (out : IO.FS.Stream) (st : St) : IO Unit := do
